@@ -45,7 +45,7 @@ Scope(b) == [k |-> "scope", v |-> "-", b |-> b, e |-> <<>>]
 ---------------------------------------------------------------------------
 (* interpreter state threaded through the walk *)
 \* rules: the caller's log configuration, a sequence of [tk, src]: trigger kind ("always" | "never" |
-\* "every2" | "scripted": fires on its 1st, 3rd, 4th evaluation) and the state that is extracted
+\* "every2" | "scripted": fires on its 1st, 3rd, 4th evaluation | "late": on its 2nd, 4th, 5th) and the state that is extracted
 \* ("K0" | "U" | "IT" | "MISSING" | ...); callers pass Expand(adds).  rootit = 0: the caller put a pass counter into its own state.
 St0x(script, fault, rules, rootit) ==
     [sc |-> <<[RootScope EXCEPT !["IT"] = rootit]>>, out |-> <<>>, script |-> script, fault |-> fault,
@@ -82,12 +82,14 @@ KeyOf(v) == "K0"
 
 (* ---- the Logger component (src/logging/logger.rs), C15 ---------------------------------------- *)
 TrigScript == <<1, 0, 1, 1, 0>>
+LateScript == <<0, 1, 0, 1, 1>>      \* a trigger that stays silent at first: later steps bring names the log has not seen yet
 Fires(s, j) ==            \* outcome of rule j's trigger when evaluated now
     LET r == s.rules[j] IN
     CASE r.tk = "always" -> 1
       [] r.tk = "never" -> 0
       [] r.tk = "every2" -> IF Vis(s.sc, "IT") % 2 = 0 THEN 1 ELSE 0
       [] r.tk = "scripted" -> IF s.tpos[j] < Len(TrigScript) THEN TrigScript[s.tpos[j] + 1] ELSE 0
+      [] r.tk = "late" -> IF s.tpos[j] < Len(LateScript) THEN LateScript[s.tpos[j] + 1] ELSE 0
 \* null if the source state is missing; PG is a float state the ins0 leaves keep next to K0 (0.75 * K0, logged in quarters)
 \* next to K0 the ins0 leaves also keep the states the `with_common` shorthand names: EV = Evaluations (K0 + 10),
 \* PI = Progress<ValueOf<Iterations>> (K0 + 20 quarters), and PE = Progress<ValueOf<Evaluations>> (K0 + 30 quarters)
@@ -116,7 +118,7 @@ LogExec(s) ==             \* every trigger is evaluated exactly once; a non-empt
     LET es == Entries(s, 1, <<>>)
         hasIt == \E x \in 1..Len(es) : es[x].n = "IT"
         step == IF hasIt THEN es ELSE <<[n |-> "IT", v |-> Vis(s.sc, "IT")]>> \o es
-        s1 == [s EXCEPT !.tpos = [j \in 1..Len(s.rules) |-> IF s.rules[j].tk = "scripted" THEN @[j] + 1 ELSE @[j]],
+        s1 == [s EXCEPT !.tpos = [j \in 1..Len(s.rules) |-> IF s.rules[j].tk \in {"scripted", "late"} THEN @[j] + 1 ELSE @[j]],
                         !.lx = Append(@, [sc |-> s.sc, rules |-> s.rules, fired |-> [j \in 1..Len(s.rules) |-> Fires(s, j)]])]
     IN IF Len(es) = 0 THEN s1 ELSE [s1 EXCEPT !.log = Append(@, step)]
 
